@@ -19,8 +19,8 @@ ASSUMPTIONS = [
     'transitions are observed through ENTERED_STATE callbacks while the process is open and through state sampling after every loop callback afterwards',
 ]
 BUDGET = {
-    'quick': {'enum': ['k1', 'k2', 'hooks', 'wc', 'tasks'], 'hyp': 4000, 'shards': 8},
-    'thorough': {'enum': ['k1', 'k2', 'k3', 'k4w', 'hooks', 'wc', 'tasks'], 'hyp': 160000, 'shards': 16},
+    'quick': {'enum': ['k1', 'k2', 'hooks', 'wc', 'tasks', 'observers'], 'hyp': 4000, 'shards': 8},
+    'thorough': {'enum': ['k1', 'k2', 'k3', 'k4w', 'hooks', 'wc', 'tasks', 'observers'], 'hyp': 160000, 'shards': 16},
 }
 
 ALPHABET = [['pause', 'p'], ['play'], ['kill', 'kt'], ['resume', 1], ['fail', 'f']]
@@ -53,6 +53,14 @@ def enumerate_cases(tier, scope):
                         continue
                     for raising in (None, 1):
                         yield {'program': gen.CATALOGUE[name], 'schedule': sched, 'cleanup_raises': raising, 'tag': f'tasks:{name}'}
+        return
+    if scope == 'observers':
+        # one-shot observers: a state-event callback that unregisters itself while it is being called
+        for name in ('async2', 'wait1', 'chain', 'failing', 'selfkill', 'sync3'):
+            for hook in ('entered', 'entering', 'exiting'):
+                for occ in (1, 2, 3, 4):
+                    for sched in ([], [['tick', 1], ['kill', 'k']], [['tick', 1], ['pause', 'p'], ['tick', 1], ['play']]):
+                        yield {'program': gen.CATALOGUE[name], 'schedule': sched, 'observers': [{'hook': hook, 'occ': occ}], 'tag': f'observers:{name}'}
         return
     if scope == 'k4w':
         for name in ('wait1', 'waitwait', 'async2', 'late3'):
@@ -95,6 +103,8 @@ def _cases(draw, tier):
         case['hooks'] = draw(gen.hook_plans(['kill', 'pause', 'play', 'fail']))
     if draw(st.integers(0, 2)) == 0:
         case['cleanup_raises'] = draw(st.integers(0, 2))
+    if draw(st.integers(0, 3)) == 0:
+        case['observers'] = draw(st.lists(st.fixed_dictionaries({'hook': st.sampled_from(['entered', 'entering', 'exiting']), 'occ': st.integers(1, 5)}), min_size=1, max_size=2))
     return case
 
 
@@ -202,6 +212,8 @@ def execute(case):
         inflight = [r for r in recs if (r['who'] == 'ext' and r.get('phase') in ('in_step', 'waiting')) or r['who'].startswith('hook:')]
         if any(r['who'].startswith('hook:') for r in recs):
             classes.append('request-from-hook')
+        if ex.world.extra.get('oneshot_removed'):
+            classes.append('observer-removed-itself')
         post = [r for r in recs if not r['live_before']]
         late_cbs = [e for e in ex.world.trace.get(ex.proc.pid, []) if e['k'] == 'cb' and e['state'] in TERMINAL]
         if inflight:
